@@ -132,6 +132,20 @@ func flockWaiterSeen(ino uint64) (seen, ok bool) {
 	return false, true
 }
 
+// lifeTmpBase: the scenario directories live on tmpfs when there is one – every Put of the directory back end
+// fsyncs, which costs tens of milliseconds per call on a busy disk and nothing there; flock(2), inodes and
+// /proc/locks are the same VFS machinery on both.
+func lifeTmpBase() string {
+	if fi, err := os.Stat("/dev/shm"); err == nil && fi.IsDir() {
+		if f, err := os.CreateTemp("/dev/shm", "verif-probe-"); err == nil {
+			f.Close()
+			os.Remove(f.Name())
+			return "/dev/shm"
+		}
+	}
+	return ""
+}
+
 type lifeHandle struct {
 	be   *gatedBackend
 	ks   api.MutableKeyStore
@@ -185,7 +199,7 @@ func runLockLife(hist, sa, ua string, maxWait time.Duration) lifeResult {
 	if !ok1 || !ok2 || s == u {
 		return lifeResult{out: "bad-args"}
 	}
-	tmp, err := os.MkdirTemp("", "verif-c17l-")
+	tmp, err := os.MkdirTemp(lifeTmpBase(), "verif-c17l-")
 	if err != nil {
 		panic("harness: " + err.Error())
 	}
@@ -616,17 +630,21 @@ func runLockLifeCases(r *core.Run, rd *core.Rand) {
 		c.procs = true
 		cases = append(cases, c)
 	}
-	n = r.N(1, 80)
+	n = r.N(2, 80)
 	for i := 0; i < n; i++ {
 		c := genLifeCase(rd)
 		c.procs = true
 		cases = append(cases, c)
 	}
-	warmLifePool(3)
-	defer drainLifePool()
 	seenWaiter, finishedWhileHeld := 0, 0
 	var waited time.Duration
+	spent := map[bool]time.Duration{}
+	tWarm := time.Now()
+	warmLifePool(3)
+	warm := time.Since(tWarm)
+	defer drainLifePool()
 	for i, c := range cases {
+		tCase := time.Now()
 		line := c.line()
 		closes := 0
 		for _, t := range c.hist {
@@ -657,7 +675,8 @@ func runLockLifeCases(r *core.Run, rd *core.Rand) {
 			panic("harness: C17.locklife: " + out + " on " + line)
 		}
 		judgeLockLife(r, c, out)
+		spent[c.procs] += time.Since(tCase)
 	}
-	r.Extra["locklife"] = map[string]any{"cases": len(cases), "released_on_seeing_u_blocked_in_flock": seenWaiter,
+	r.Extra["locklife"] = map[string]any{"cases": len(cases), "in_process_s": spent[false].Seconds(), "separate_processes_s": spent[true].Seconds(), "child_pool_start_s": warm.Seconds(), "released_on_seeing_u_blocked_in_flock": seenWaiter,
 		"u_finished_while_s_was_held": finishedWhileHeld, "held_ms_total": waited.Milliseconds()}
 }
